@@ -237,6 +237,10 @@ def _sync():
             props |= {"C10", "C03", "C04", "C12", "C05"}; prim |= {"C10", "C03", "C04"}
         elif fn == "l_upsert_admission":
             props |= {"C13", "C12", "C10", "C04"}; prim |= {"C13", "C12"}
+        elif fn == "l_upsert_admission_c":
+            props |= {"C13", "C12", "C10", "C04", "C03", "C11"}
+        elif fn == "l_burst":
+            props |= {"C10", "C03", "C01", "C07", "C04", "C11", "C09"}
         elif fn == "l_evict_lru_exact":
             props |= {"C12", "C04", "C10", "C11"}; prim |= {"C12", "C04"}
         elif fn == "l_purge_one":
@@ -279,6 +283,9 @@ for _n in (1, 2):
         f"n={_n} admitted residents, u32 weights symbolic", required=("rejected on popularity", "rejected: no covering prefix", "admitted over all residents"))
 add("sync_base_cache.rs", "l_sync_round_plain", {"C10", "C03", "C09", "C12", "C01", "C06", "C08"}, "quick", 60, "one whole Inner::sync with a queued Hit and a queued insert that fits", "n=1 + 1 pending, unbounded, symbolic read timestamp", quick={"C10", "C03", "C09", "C12"})
 add("sync_base_cache.rs", "l_evict_lru_terminates_on_unevictable_node", {"C09", "C08"}, "quick", 60, "evict_lru_entries over capacity with only an invalidated (unevictable) node left: bounded by its batch size", "n=1 whose map entry is gone, batch size 2", unwind_tag="C09")
+for _nm in ("hit", "expired", "invalidated", "miss"):
+    add("sync_base_cache.rs", f"c09_get_{_nm}_releases_guard", {"C09", "C08"}, "quick", 30, "get/contains_key release every DashMap guard before the housekeeping point (inline maintenance) and before returning",
+        "n=1 resident, concrete time class; guard counter of the container model; housekeeping decision stubbed by a checking twin")
 add("sync_base_cache.rs", "s_eviction_counters_never_overflow", {"C10", "C08"}, "quick", 2, "EvictionCounters saturating arithmetic", "all u64 totals, u32 weights")
 add("sync_cache.rs", "invalidate_of_a_pending_insert_queues_its_removal", {"C07", "C11", "C10"}, "quick", 60, "Cache::invalidate of a key whose Upsert is still queued", "n=1 admitted + 1 pending; model queue 4", quick={"C07", "C11", "C10"})
 add("sync_builder.rs", "sync_policy_reports_exactly_the_knobs", {"C17"}, "quick", 100, "sync builder: every knob combination -> policy()", "all capacities, durations <= 1000 y")
